@@ -461,6 +461,24 @@ def plugin_stage(ctx, I, names, add):
         except SyntaxError as e:
             ctx.fail("oracle", f"message `none`: the generated module does not compile ({e.msg}): class name {I.N.pythonize_class_name('none')!r}",
                      cls=CLS_CLASS, input="none")
+    # K38 through the plugin: two proto3 fields protoc (>= 22: names compared by their case-sensitive JSON names only) accepts
+    # side by side and the plugin maps to ONE Python attribute (C19_json_rule_collision_refuted; the generators above keep
+    # sibling names apart, `seen_py`)
+    for a, b in (("FooBar", "foo_bar"), ("HTTPStatus", "http_status"), ("a1b", "a1_b")):
+        rc, out, out_dir = plugin_util.generate(ctx.work, {"k38.proto": f"syntax = \"proto3\";\npackage k38;\nmessage M {{ int32 {a} = 1; int32 {b} = 2; }}\n"},
+                                                f"c19k38{ctx.seed}{a}")
+        ctx.count("sibling_attribute_probes")
+        if rc != 0:
+            ctx.count("sibling_attribute_probes_rejected_by_protoc")
+            continue
+        code = (f"import importlib; m = importlib.import_module('c19k38{ctx.seed}{a}.k38'); x = m.M.FromString(bytes.fromhex('08051007')); "
+                "print('K38', sorted(x.to_dict().items()), len(x._betterproto.meta_by_field_name))")
+        rc2, out2 = plugin_util.run_in_subprocess(ctx.work, code, timeout=120)
+        line = [l for l in out2.splitlines() if l.startswith("K38 ")]
+        if not line or " 2" != line[0][-2:]:
+            ctx.fail("oracle", f"protoc accepts sibling fields {a!r} and {b!r}; the plugin maps both to the attribute {I.N.pythonize_field_name(a)!r}: "
+                               f"the class has one field and a value is silently dropped ({(line or [out2[-200:]])[0]})",
+                     cls="sibling-attribute-collision" if I.N.pythonize_field_name(a) == I.N.pythonize_field_name(b) else "raised", input=[a, b])
 
 
 # ----------------------------------------------------------------------------------------------
